@@ -142,6 +142,33 @@ def rule_pixel_pipeline(ck, m, rid):
         ck.ob(rid, enclosing_stmt(c), cds == {"self._is_animated"} and [norm(a_) for a_ in c.args] == ["self._seek_position"],
               f"the frame to render must be selected (`img.seek(self._seek_position)`) whenever the image is animated - found conditions {sorted(cds)}: a PIL image supplied by the caller keeps the "
               "position of the last render, so any shortcut renders a stale frame", stmt="_get_render_data: img.seek(self._seek_position) iff animated")
+    # the source image is only read: its metadata / palette (`img.info`, `img.palette`, ...) is never edited in place. For a PIL image supplied by
+    # the caller `img` IS the caller's object (and the instance's source for every later render): popping `info['transparency']` for one
+    # render changes the pixels of all later ones.
+    from rules.common import IN_PLACE as _INPL
+    FRESH_ = {"convert", "resize", "copy", "new", "crop", "transpose", "getchannel", "point", "open", "frombytes", "fromarray", "quantize", "reduce"}
+    n_meta = 0
+    for fn_ in fns:
+        for x in body_walk(fn_):
+            recv = None
+            if isinstance(x, ast.Call) and isinstance(x.func, ast.Attribute) and x.func.attr in _INPL and isinstance(x.func.value, (ast.Attribute, ast.Subscript)):
+                recv = x.func.value
+            elif isinstance(x, (ast.Subscript, ast.Attribute)) and isinstance(x.ctx, (ast.Store, ast.Del)) and isinstance(x.value, (ast.Attribute, ast.Subscript)):
+                recv = x.value
+            if recv is None:
+                continue
+            root = recv
+            while isinstance(root, (ast.Attribute, ast.Subscript)):
+                root = root.value
+            if not isinstance(root, ast.Name) or root.id in ("self", "cls"):
+                continue
+            tr_ = trace(fn_, root, use=x)
+            fresh = isinstance(tr_, ast.Call) and isinstance(tr_.func, ast.Attribute) and tr_.func.attr in FRESH_
+            if "img" in norm(root) or "image" in norm(root) or any(isinstance(n_, ast.Name) and n_.id in ("img", "frame_img") for n_ in ast.walk(tr_)):
+                n_meta += 1
+                ck.ob(rid, enclosing_stmt(x), fresh, f"`{short(x, 60)}` edits state of `{root.id}` in place, which can be the source image itself (a caller's PIL image is rendered from directly): every later render of "
+                      "the same image then sees the edited metadata - the pixels shown depend on the render history", stmt=f"_get_render_data: source image metadata not edited: {short(x, 40)}")
+    ck.extra["source_metadata_edits"] = n_meta
     comp = [c for c in body_walk(grd) if isinstance(c, ast.Call) and isinstance(c.func, ast.Attribute) and c.func.attr == "alpha_composite" and isinstance(c.func.value, ast.Name)
             and [norm(a_) for a_ in c.args] == ["img"] and norm(trace(grd, c.func.value, use=c)).startswith("Image.new('RGBA', img.size")]
     # what the image is composited over: the user's colour, or the terminal background with OPAQUE black as the fallback. For an RGBA
@@ -408,6 +435,7 @@ MUTANTS = [
     M("threshold-le", CM, "BaseImage._get_render_data", "a = [0 if val < alpha else 255 for val in a]", "a = [0 if val <= alpha else 255 for val in a]", {"R4"}),
     M("composite-shortcut", CM, "BaseImage._get_render_data", "                if round_alpha:\n                    bg = Image.new(", "                if round_alpha and not (pixel_data and min(a) == 255):\n                    bg = Image.new(", {"R4"}),
     M("no-round-alpha", BL, "BlockImage._render_image", "round_alpha=True, ", "", {"R4"}),
+    M("edit-source-info", CM, "BaseImage._get_render_data", '            convert_resize_img("RGB")\n            if pixel_data:\n                rgb = list(img.getdata())', '            img.info.pop("transparency", None)\n            convert_resize_img("RGB")\n            if pixel_data:\n                rgb = list(img.getdata())', {"R4"}),
     M("numeric-fallback-fill", CM, "BaseImage._get_render_data", '                    alpha = get_fg_bg_colors(hex=True)[1] or "#000000"\n', '                    alpha = get_fg_bg_colors(hex=True)[1] or 0\n', {"R4"}),
     M("numeric-fill-round-alpha", CM, "BaseImage._get_render_data", '"RGBA", img.size, get_fg_bg_colors(hex=True)[1] or "#000000"\n', '"RGBA", img.size, get_fg_bg_colors(hex=True)[1] or (0, 0, 0, 0)\n', {"R4"}),
     M("twin-reorder-disjuncts", BL, "BlockImage._render_image", "                    px1 != cluster1\n                    or px2 != cluster2\n", "                    px2 != cluster2\n                    or px1 != cluster1\n", twin=True),
